@@ -49,7 +49,9 @@ PROPS = {
                    "aggregate signature over exactly the selected (vote,key) pairs, payload hash = header); add() refuses non-members, "
                    "repeated signers, other votes, bad signatures and then leaves the certificate unchanged, accepts every vote that "
                    "satisfies those conditions (completeness of add), and changes exactly one bit. For all committee sizes and weights.",
-        level_note="Trusted (listed per run in evidence): BLS via blst (Signed::verify, AggregateSignature::{add,verify_messages} are "
+        level_note="Trusted (listed per run in evidence): Unit blockstore also runs for C04 (EngineManager::queue_block: a block enters the store only after FinalBlock::verify against the "
+                   "schedule EngineManager::validator_schedule returns for EXACTLY the block's epoch - that function is extracted, not assumed - or the pre-genesis check). "
+                   "BLS via blst (Signed::verify, AggregateSignature::{add,verify_messages} are "
                    "uninterpreted predicates), keccak, bit_vec::BitVec, std iterator adapters behind 7 pipeline templates whose closures "
                    "are the repository's and are verified (including the nested flat_map key selection of TimeoutQC::verify), BTreeMap as "
                    "an ordered map with distinct keys, Schedule accessors (proved in unit leader). No statement of these functions is "
@@ -389,7 +391,10 @@ PROPS = {
                    "trait ProtoRepr, which carries the same contract; BlockStoreState / Last / Transaction), and the generic helpers required / read_required / read_optional. Kani (complete harnesses on the real "
                    "crates, concrete counterexamples): Duration (EVERY decodable value, after fix F7), SocketAddr (all addresses and ports), Phase, "
                    "View, ReplicaCommit round-trip; Duration/Timestamp decoding total.",
-        level_note="NOT decided: prost's own encoder / decoder and the build-time schema check; quick_protobuf's reader / writer primitives are "
+        level_note="OPEN KNOWN FINDING F9 (printed as KNOWN-FINDING on every run, see known_findings.json): SocketAddr::V6 with a non-zero flowinfo / scope id does not "
+                   "round-trip (complete Kani harness socket_addr_v6_scope_roundtrip, concrete counterexample; the harness over the addresses SocketAddr::new can build passes). "
+                   "Completeness of canonical_raw (that every valid serialisation IS normalised rather than refused) is not specified: its contract is about Ok results. "
+                   "NOT decided: prost's own encoder / decoder and the build-time schema check; quick_protobuf's reader / writer primitives are "
                    "assumed as documented (a successful read consumes input, a length-delimited value is shorter than what was consumed, writes to a "
                    "Vec cannot fail; varint / fixed encodings are uninterpreted); the parse result of read_fields is NAMED (spec_fields / spec_keys), "
                    "not re-specified byte by byte, so 'hashes computed by different nodes agree' is decided up to the assumed primitives. Assumed leaves (A3/A2): ByteFmt of keccak digests, "
